@@ -6,6 +6,14 @@ ALL = ["C%02d" % i for i in range(1, 21)]
 
 # id -> (technique, level text, level_note, design_ref)
 CHECKS = {
+ "C18": ("model-based PBT: scripted DHCP server with one-attribute-wrong replies, lease model oracle, independent DHCP codec",
+         "Ethernet node with a dhcpv4 socket (retry config, max lease, ports, ignore_naks drawn) against a scripted server producing OFFER/ACK/NAK with 20 kinds of single defects, boundary lease/T1/T2 values, loss/duplication both ways, ARP answered/ignored; polls at poll_at and just before/at/after T1, T2, expiry. Oracle: Configured only from a valid ACK; Deconfigured at the first poll >= expiry; poll_at <= expiry; renew <= rebind <= expiry; bounded solicitation gap. 14 hand-made mutants killed by the quick tier (sub-agent report).",
+         "Trusts the independent DHCP/UDP/IPv4 codecs and the lease model's reading of 'most recent request' (xid of the latest client message on the wire); liveness clauses only when every poll was on time.",
+         "DESIGN.md 3/C18"),
+ "C19": ("model-based PBT: scripted resolver with one-attribute-wrong responses, reference resolver oracle, independent DNS codec",
+         "dns::Socket with 0-3 servers and 1-3 concurrent queries (A/AAAA, mDNS) against a scripted resolver whose responses have exactly one matching attribute wrong (source address/port, destination port, txid, question name/type), CNAME chains in/out of order, compression pointers (backward/forward/self/loop/out of range), truncation; time moves only to poll_at. Oracle: results only from a fully matching response and a subset of what a reference resolver extracts from it; every query completes within 20 s x servers (+slack); retransmissions repeat the question; no panic, no hang (watchdog). 11 mutants killed (sub-agent report).",
+         "Statement read permissively (case-insensitive names, any source from port 5353, QR/opcode/rcode not matching attributes); head-of-line blocking behind an unreachable server is counted, not flagged (time stays bounded).",
+         "DESIGN.md 3/C19"),
  "C04": ("model-based PBT: scripted TCP peer vs reference receiver, independent TCP codec",
          "One socket is fed up to 200 generated segments placed around its advertised window by a scripted peer owning a fixed stream; a reference receiver built from the delivered segments and the windows read off the socket's own output checks: delivered bytes = stream prefix, no byte delivered that never arrived below the advertised edge, ACK never covers unreceived bytes/FIN, Finished only after all data, advertised edge within buffer. Exploration by random search with boundary-biased generators; no exhaustiveness claimed.",
          "Trusts vkit::indep TCP/IP codec; 'arrived in window' is a necessary condition only; peer never resets.",
